@@ -475,6 +475,72 @@ pub fn check(paths: &Paths, tier: &str) -> i32 {
     }
     samples.extend(l.samples.iter().cloned());
 
+    // ---------------- I5, exhaustive over single leaves of the hand-written and example descriptions ----------------
+    // (the PRNG-drawn exclusion sets above rarely contain the one leaf that matters; enumerating
+    // E = {leaf} for every leaf of these small descriptions costs a few seconds)
+    let sweep_done = {
+        let mut todo: Vec<Job> = Vec::new();
+        let wd = WorkerDir::new(&ctx.scratch, 996);
+        wd.install_aux(&ctx.corpus_dir);
+        for (ei, e) in ctx.corpus.entries.iter().enumerate() {
+            let small = e.id.starts_with("hand_") || e.id.starts_with("example_") || e.id.starts_with("pdltests_");
+            if !(small || (thorough && e.id.starts_with("canonical"))) || e.id == "hand_many" {
+                continue;
+            }
+            for b in crate::corpus::BACKENDS {
+                let job = Job { entry: ei, sibling: None, backend: b, extra_excl: vec![], text_override: None, extra_args: vec![] };
+                let mut st = RunStats::default();
+                if let Some(g) = tierp::decl_graph(&ctx, &wd, &job, &e.text, &mut st) {
+                    for leaf in g.leaves() {
+                        todo.push(Job { extra_excl: vec![leaf], ..job.clone() });
+                    }
+                }
+            }
+        }
+        let _ = std::fs::remove_dir_all(&wd.root);
+        let n = todo.len();
+        let todo = Arc::new(todo);
+        let next = Arc::new(AtomicU64::new(0));
+        let found: Arc<Mutex<Vec<(usize, Violation)>>> = Arc::new(Mutex::new(Vec::new()));
+        let mut hs = Vec::new();
+        for k in 0..nworkers {
+            let (ctx, todo, next, found) = (ctx.clone(), todo.clone(), next.clone(), found.clone());
+            hs.push(std::thread::spawn(move || {
+                let wd = WorkerDir::new(&ctx.scratch, 900 + k);
+                wd.install_aux(&ctx.corpus_dir);
+                loop {
+                    let i = next.fetch_add(1, Ordering::SeqCst) as usize;
+                    if i >= todo.len() {
+                        break;
+                    }
+                    let mut st = RunStats::default();
+                    if let Some(v) = tierp::check_exclusion(&ctx, &wd, &todo[i], &mut st) {
+                        found.lock().unwrap().push((i, v));
+                    }
+                }
+                let _ = std::fs::remove_dir_all(&wd.root);
+            }));
+        }
+        for h in hs {
+            let _ = h.join();
+        }
+        let mut f = found.lock().unwrap().clone();
+        f.sort_by_key(|x| x.0);
+        for (i, v) in f {
+            let job = &todo[i];
+            let sig = signature("P", &job.to_json(&ctx.corpus), &v);
+            if let Some(m) = known.matches(&sig) {
+                known_hits.insert(m["what"].as_str().unwrap_or("known finding").to_string());
+                continue;
+            }
+            if violations.len() < 50 {
+                let path = write_replay_p(paths, &ctx, seed, 1_000_000 + i as u64, job, &Perturb::canonical(), &v, 0, None);
+                violations.push((sig, path));
+            }
+        }
+        n
+    };
+
     // ---------------- probes of the listed known findings (so that they are reported on every run) ----------------
     {
         let wd = WorkerDir::new(&ctx.scratch, 997);
@@ -614,6 +680,7 @@ pub fn check(paths: &Paths, tier: &str) -> i32 {
                 "rejected_source_diagnostic_mismatches_canary_not_judged": diag_mismatch,
                 "determinism_selfcheck_runs": sc_n,
                 "regression_replays_of_repaired_findings": regressions_replayed,
+                "exclusion_single_leaf_sweep_checks": sweep_done,
             },
             "tier_L": l.stats,
             "tier_D": d.stats,
